@@ -461,6 +461,7 @@ class Exec:
             s.stats['paths'] += 1; s.stats['steps'] += st.steps
             s.on_path_end(st, outcome)
     def on_path_end(s, st, outcome):
+        s.last_outcome = outcome
         if outcome in ('INFEASIBLE', 'ASSUME-FALSE'): s.stats['infeasible'] += 1; return
         s.reached['__path_' + outcome] = s.reached.get('__path_' + outcome, 0) + 1
         if len(s.completed_models) < s.keep_models and outcome in ('END', 'THROW'):
